@@ -219,9 +219,23 @@ def run_case(h, R, line, idx):
         timed_out = False
         try:
             pump(time.time() + 20)
+            plan = [x for x in cfg['qq'].split(',') if x]
+            seen354 = 0
             for c in chunks:
                 if closed:
                     break
+                # a qmail-queue stand-in that is planned to die before it has read the message must be gone before the data
+                # arrives, otherwise "is the pipe already broken when the first line is written" would be a race
+                n354 = out.count(b'\r\n354 ') + (1 if out.startswith(b'354 ') else 0)
+                if n354 > seen354:
+                    k = n354 - 1
+                    seen354 = n354
+                    pl = plan[k] if k < len(plan) else 'ok'
+                    early = pl.startswith('die:b') or (pl.startswith('die:m:') and int(pl.split(':')[2]) <= 150)
+                    if early:
+                        t_end = time.time() + 3
+                        while _children(p.pid) and time.time() < t_end:
+                            time.sleep(0.0005)
                 try:
                     a.setblocking(True)
                     a.sendall(c)
